@@ -54,7 +54,7 @@ class C18(Profile):
         n_ident = rng.randrange(1, 4)
         n_sdo = rng.randrange(2, 7)
         pool = SW.gen_pool(rng, index, n_ident, 3, [('identity', 1)]) + \
-            SW.gen_pool(rng, index + 500000, n_sdo, rng.choice([1, 2, 3]), [('sdo', 1)], upper_ids=rng.choice([0, 0, 0.3, 1.0]))
+            SW.gen_pool(rng, index + 500000, n_sdo, rng.choice([1, 2, 3]), [('sdo', 8), ('cobs', 1)], upper_ids=rng.choice([0, 0, 0.3, 1.0]))
         for e in pool:
             if e['kind'] == 'sdo':
                 e['type'] = rng.choice([t for t in C.versioned_types(e['ver']) if t not in ('relationship', 'sighting')])
@@ -63,7 +63,7 @@ class C18(Profile):
                 e['common'] = []
             if rng.random() < 0.6:
                 e['creator'] = rng.randrange(n_ident) if rng.random() < 0.85 else None
-            if e.get('creator') is None:
+            if e.get('creator') is None or e['kind'] == 'cobs':
                 e.pop('creator', None)
         n_obj = len(pool)
         if rng.random() < 0.2:
